@@ -182,6 +182,34 @@ def gen_spec(rng, tier):
                       "sampler": _gen_sampler(rng), "uses_iteration": not lbfgs})
     if conds[-1]["weight"] == 1.0 and rng.random() < 0.8:
         conds[-1]["weight"] = float(rng.choice([0.25, 0.5, 2.0, 3.0]))
+    # random samplers drawing from the global torch RNG (both runs reseed it at the start of every step)
+    reseed = False
+    rnd = lambda static=False: {"where": "inner", "n": [int(rng.integers(2, 5)), int(rng.integers(2, 5))], "random": True,
+                                "static": static}
+    if not lbfgs and rng.random() < 0.3:
+        for c in conds:
+            if c["kind"] == "pinn" and rng.random() < 0.7:
+                c["sampler"] = rnd(static=bool(rng.random() < 0.25))
+                reseed = True
+    # weight-0 ("monitor only") training conditions, at any position (also first)
+    r = rng.random()
+    if r < 0.35:
+        z = {"kind": "pinn", "model": int(rng.integers(0, n_models)), "weight": 0.0,
+             "res": str(rng.choice(["r_dirichlet", "r_source", "r_lap", "r_heat"])), "sampler": _gen_sampler(rng)}
+        if not lbfgs and (reseed or rng.random() < 0.35):
+            z["sampler"] = rnd()
+            reseed = True
+        pos = 0 if rng.random() < 0.5 else int(rng.integers(0, len(conds) + 1))
+        conds.insert(pos, z)
+        if z["sampler"].get("random") and not any(c.get("sampler", {}).get("random") and c["weight"] != 0
+                                                   for c in conds[pos + 1:]):
+            # a weighted condition that samples randomly AFTER the monitor-only one
+            conds.append({"kind": "pinn", "model": int(rng.integers(0, n_models)), "weight": float(rng.choice([0.5, 2.0, 3.0])),
+                          "res": str(rng.choice(["r_dirichlet", "r_source", "r_heat"])), "sampler": rnd()})
+    elif r < 0.45 and len(conds) >= 2:
+        conds[int(rng.integers(0, len(conds)))]["weight"] = 0.0
+        if all(c["weight"] == 0 for c in conds):
+            conds[-1]["weight"] = 2.0
     # validation conditions (on the training models)
     vals = []
     for i in range(int(rng.choice([0, 1, 2], p=[0.45, 0.35, 0.2]))):
@@ -206,7 +234,17 @@ def gen_spec(rng, tier):
         else:
             v["sampler"] = _gen_sampler(rng)
             v["uses_iteration"] = False
+        if kind == "pinn" and rng.random() < 0.3:
+            # the validation condition evaluates on the very sampler object of a training condition (deterministic ones)
+            cand = [i for i, c in enumerate(conds) if c["kind"] in ("pinn", "adaptive") and not c["sampler"].get("random")]
+            if cand:
+                v["sampler_of"] = int(rng.choice(cand))
         vals.append(v)
+    if don is not None and rng.random() < 0.65:
+        # a validation condition on the DeepONet that SHARES the model and the function set with a training condition
+        tg = bool(rng.random() < 0.3)
+        vals.append({"kind": "pideeponet", "model": don, "weight": 1.0, "res": "o_fit_x" if tg else "o_fit",
+                     "track_gradients": tg, "sampler": _gen_sampler(rng)})
     # prune unused models / parameters and re-index
     used_m = sorted({c["model"] for c in conds + vals if c.get("model") is not None})
     mmap = {m: i for i, m in enumerate(used_m)}
@@ -232,7 +270,7 @@ def gen_spec(rng, tier):
         if cands:
             trainer["limit_train_batches"] = int(rng.choice(cands))
     return {"seed": int(rng.integers(0, 2**31 - 1)), "models": models, "params": params, "conds": conds, "vals": vals,
-            "opt": opt, "trainer": trainer, "steps": steps}
+            "opt": opt, "trainer": trainer, "steps": steps, "reseed": reseed}
 
 
 def _gen_stage_conds(rng, n_models, n_par, n, need_param):
@@ -436,6 +474,14 @@ def _judge(spec, steps, ref, real, res, mech, tag=""):
         C["cases_several_epochs"] = C.get("cases_several_epochs", 0) + 1
     if spec["vals"]:
         C["cases_with_validation"] = C.get("cases_with_validation", 0) + 1
+    if any(c["weight"] == 0 for c in spec["conds"]):
+        C["fits_with_zero_weight_condition"] = C.get("fits_with_zero_weight_condition", 0) + 1
+    if any(c.get("sampler", {}).get("random") for c in spec["conds"]):
+        C["fits_with_random_samplers_reseeded"] = C.get("fits_with_random_samplers_reseeded", 0) + 1
+    if any(c["kind"] == "pideeponet" for c in spec["vals"]):
+        C["fits_with_validation_deeponet_sharing_function_set"] = C.get("fits_with_validation_deeponet_sharing_function_set", 0) + 1
+    if any(c.get("sampler_of") is not None for c in spec["vals"]):
+        C["fits_with_validation_on_training_sampler"] = C.get("fits_with_validation_on_training_sampler", 0) + 1
     C["learnable_tensors"] = C.get("learnable_tensors", 0) + len(names)
     for n in names:
         C["tensors_" + _what(n)] = C.get("tensors_" + _what(n), 0) + 1
@@ -623,7 +669,9 @@ def run_case(case):
     C = res["counters"]
     mech = {"opt": spec["opt"]["cls"], "sched": (spec["opt"].get("sched") or {}).get("cls"),
             "epochs": "several" if spec["trainer"].get("limit_train_batches") else "one",
-            "validation": bool(spec["vals"]), "staged": False}
+            "validation": bool(spec["vals"]), "staged": False,
+            "zero_weight": any(c["weight"] == 0 for c in spec["conds"]),
+            "random_samplers": any(c.get("sampler", {}).get("random") for c in spec["conds"])}
     V = res["viol"]
 
     # determinism self-check of the reference (two fresh reference worlds must agree exactly)
